@@ -21,7 +21,7 @@ ok=1
 [ $rc_clean -eq 0 ] || ok=0
 [ $rc_mut -ne 0 ] || ok=0
 echo "$suite" | grep -q "2096 passed" || ok=0
-echo "$suite" | grep -q "failed" && ok=0
+echo "$suite" | grep -q -E "[0-9]+ failed" && ok=0
 if [ $ok -eq 1 ]; then
   dst=/verif/seeded/$name; mkdir -p $dst
   cp "$src/patch.diff" "$src/demo.py" $dst/
